@@ -155,8 +155,9 @@ fn judge(prog: &Prog, ctx: &mut Ctx, tape: &[u8], cli_level: u8) -> Judged {
         wk.n += 1;
         let fuel = 1000 + 400 * r.steps;
         // ---- in-process
+        // the same path is reused run after run and never removed: a log left by an earlier,
+        // longer run must not shine through (a user re-running with the same --heap-log)
         let f = wk.sc.file("log.csv");
-        let _ = std::fs::remove_file(&f);
         let x = fmlrun::run_stepped_cfg(&pipe.loaded, fuel, Some(f.clone()));
         let plain = fmlrun::run_stepped(&pipe.loaded, fuel);
         if x.out != plain.out || x.exec.class() != plain.exec.class() {
@@ -213,9 +214,6 @@ fn judge(prog: &Prog, ctx: &mut Ctx, tape: &[u8], cli_level: u8) -> Judged {
                 Some(l3.clone()),
             ));
             for (name, bin, args, log) in configs {
-                if let Some(l) = &log {
-                    let _ = std::fs::remove_file(l);
-                }
                 let a: Vec<&str> = args.iter().map(|s| s.as_str()).collect();
                 let o = cli::run_fml(bin, &a).map_err(|e| herr(e.to_string()))?;
                 ctx.label("cli-config");
@@ -245,7 +243,6 @@ fn judge(prog: &Prog, ctx: &mut Ctx, tape: &[u8], cli_level: u8) -> Judged {
             let p2 = cli::run_fml(&rel, &["compile", fjson.to_str().unwrap(), "-o", fbc.to_str().unwrap()]).map_err(|e| herr(e.to_string()))?;
             if p1.status.success() && p2.status.success() {
                 let l4 = wk.sc.file("cli4.csv");
-                let _ = std::fs::remove_file(&l4);
                 let e1 = cli::run_fml(&rel, &["execute", fbc.to_str().unwrap()]).map_err(|e| herr(e.to_string()))?;
                 let e2 = cli::run_fml(&rel, &["execute", fbc.to_str().unwrap(), "--heap-log", l4.to_str().unwrap(), "--heap-size", "3"]).map_err(|e| herr(e.to_string()))?;
                 ctx.label("cli-config");
